@@ -4,7 +4,7 @@
    refutation witnesses).  Everything below is about [GenAsync.code], the record the translator
    regenerates from twisted/__init__.py, transaction.py and constants.py on every run.
    A history is ANY list of Execute / ExecuteE / ExecuteC / Segment (reply frames) / Lost / Made /
-   Skip n; ExecuteE / ExecuteC are requests whose errback / callback calls protocol.execute again
+   Close / Skip n; ExecuteE / ExecuteC are requests whose errback / callback calls protocol.execute again
    (re-entrant user code); deferreds are named by the allocation index of their transaction id.
    [plain ops] = no ExecuteE / ExecuteC in the history. *)
 From PM.theories Require Import Base AsyncClient.
@@ -140,6 +140,20 @@ Theorem C16_execute_after_lost : forall v σ, a_conn σ = false ->
   a_fired σ' = a_fired σ ++ [(a_alloc σ + 1, OErr ConnectionExc)].
 Proof. exact (execute_when_disconnected code gen_good). Qed.
 Print Assumptions C16_execute_after_lost.
+
+(* protocol.close() clears the flag at once: a request issued after close() fails at once, also
+   before connectionLost is reported; what was outstanding is errbacked at connectionLost *)
+Theorem C16_close : forall v σ,
+  let σ' := astep code v σ Close in
+  a_conn σ' = false /\ a_pending σ' = a_pending σ /\ a_fired σ' = a_fired σ /\ a_sent σ' = a_sent σ.
+Proof. exact (close_disconnects code gen_good). Qed.
+Print Assumptions C16_close.
+
+Theorem C16_close_then_execute :
+  let σ := arun code VDict [Made; Execute; Close; Execute; Lost] (init_state code) in
+  a_pending σ = [] /\ a_fired σ = [(2, OErr ConnectionExc); (1, OErr ConnectionExc)].
+Proof. exact close_then_execute. Qed.
+Print Assumptions C16_close_then_execute.
 
 Theorem C16_stays_lost : forall v ops σ, a_conn σ = false -> no_made ops = true ->
   a_conn (arun code v ops σ) = false.
